@@ -205,6 +205,12 @@ pub fn long_autosql_case(bytes: usize) -> Case {
     c
 }
 
+pub fn prefixed_autosql_case(prefix: &str) -> Case {
+    let mut c = long_autosql_case(200);
+    c.input.autosql = c.input.autosql.map(|a| format!("{}{}", prefix, a));
+    c
+}
+
 impl Prop for C02 {
     type Case = Case;
     const ID: &'static str = "C02";
@@ -237,6 +243,9 @@ impl Prop for C02 {
             deep_index_case(70_000),
             long_autosql_case(9_000),
             long_autosql_case(70_000),
+            // a schema text that starts with a byte order mark / a zero-width character (kept verbatim)
+            prefixed_autosql_case("\u{feff}"),
+            prefixed_autosql_case("\u{200b}\u{feff} "),
         ]
     }
     fn strategy(tier: Tier) -> BoxedStrategy<Case> {
